@@ -1,18 +1,37 @@
 /* VERIF-UNIT
 {
  "name": "ea_full_list_B3",
- "props": ["C01", "C02"],
+ "props": [
+  "C01",
+  "C02"
+ ],
  "level": "B(3)",
  "tier": "wip",
  "harness": "h_ea_full",
- "includes": ["e2fsck", "lib/support"],
- "defines": ["EXT2_CUSTOM_MEMORY_ROUTINES", "EA_EXACT_LIBC", "EA_SCEN_SHRINK"],
+ "includes": [
+  "e2fsck",
+  "lib/support"
+ ],
+ "defines": [
+  "EXT2_CUSTOM_MEMORY_ROUTINES",
+  "EA_EXACT_LIBC",
+  "EA_SCEN_SHRINK"
+ ],
  "unwind": 6,
  "unwind_reason": "BOUNDED stand-in: a FULL list (count == size) of 1..3 entries: the binary search probes at most 2 times, the 'goto retry' loop runs at most twice, the collapse loop, the entry-wise realloc copy / memmove and the harness's scans run at most 4 times; unwinding assertions on",
- "functions": ["e2fsck/ea_refcount.c:get_refcount_el", "e2fsck/ea_refcount.c:insert_refcount_el", "e2fsck/ea_refcount.c:refcount_collapse", "e2fsck/ea_refcount.c:ea_refcount_increment", "e2fsck/ea_refcount.c:ea_refcount_store"],
- "assumes": ["bounded: a full list (count == size) of 1..3 entries with strictly ascending keys (assumed for ALL pairs), arbitrary counts of which at least one is zero (scenario 'collapse makes room'; the resize is then unreachable: obligation), arbitrary cursor; ONE operation (increment or store, arbitrary key and value)",
-	     "everything is the real code (no callee contract, no ghost statement: the anchors expand to nothing); memmove = exact entry-wise copy"],
- "native": false
+ "functions": [
+  "e2fsck/ea_refcount.c:get_refcount_el",
+  "e2fsck/ea_refcount.c:insert_refcount_el",
+  "e2fsck/ea_refcount.c:refcount_collapse",
+  "e2fsck/ea_refcount.c:ea_refcount_increment",
+  "e2fsck/ea_refcount.c:ea_refcount_store"
+ ],
+ "assumes": [
+  "bounded: a full list (count == size) of 1..3 entries with strictly ascending keys (assumed for ALL pairs), arbitrary counts of which at least one is zero (scenario 'collapse makes room'; the resize is then unreachable: obligation), arbitrary cursor; ONE operation (increment or store, arbitrary key and value)",
+  "everything is the real code (no callee contract, no ghost statement: the anchors expand to nothing); memmove = exact entry-wise copy"
+ ],
+ "native": false,
+ "backend": "cadical"
 }
 */
 /*
